@@ -14,6 +14,7 @@
 //! output per op: [code ok new-slot] ; [context count above baseline ; live instances ; destructors that ran since the last op (ids)]
 //! params: [context kind]  0 (default) the shared context is a `CArc<c_void>` (erased form of a CArc<()>: the count is the Arc's strong count);
 //!                         1 a ZERO-SIZED user context whose Clone and Drop maintain a count in a static (a handle onto one process-wide library)
+//!                         2 the erased form of a CArc whose payload is over-aligned (64 bytes)      3 a foreign CArc (published layout, its own counting functions)
 use crate::*;
 
 /// the shared context in its ERASED form, as plugin entry points receive it: every creation goes through CArc::<T>::into_opaque
@@ -48,6 +49,50 @@ pub mod zst_ctx {
     include!("life_body.rs");
 }
 
+/// the erased context of a payload that is OVER-ALIGNED (64 bytes): the reference counters of its allocation do not sit where they sit for
+/// `Arc<c_void>`-like payloads, so only the functions stored in the handle (instantiated for the payload type) may touch them
+pub mod arc64_ctx {
+    use crate::*;
+    use cglue_macro::check;
+    #[repr(align(64))]
+    pub struct Wide(pub u8);
+    pub type Ctx = CArc<cglue::trait_group::c_void>;
+    thread_local! { static OWN: RefCell<Option<Arc<Wide>>> = RefCell::new(None); }
+    fn ctx_begin(_arc: &Arc<()>) { let d = crate::alloc::domain(0); OWN.with(|c| *c.borrow_mut() = Some(Arc::new(Wide(7)))); crate::alloc::domain(d); }
+    fn ctx_end() { let d = crate::alloc::domain(0); OWN.with(|c| *c.borrow_mut() = None); crate::alloc::domain(d); }
+    fn mk_ctx(_arc: &Arc<()>) -> Ctx { OWN.with(|c| CArc::<Wide>::from(c.borrow().as_ref().unwrap().clone()).into_opaque()) }
+    fn cur_count() -> Option<i64> { OWN.with(|c| c.borrow().as_ref().map(|a| Arc::strong_count(a) as i64)) }
+    include!("life_body.rs");
+}
+
+/// a FOREIGN context: a handle that was not made by this library's `From<Arc<T>>` but built through the published three-field layout
+/// (instance, clone function, release function) by "another module" whose functions keep the count in a record of their own.  Every
+/// reference a derived object holds must have been taken through the stored clone function and is given back through the stored release function.
+pub mod foreign_ctx {
+    use crate::*;
+    use cglue_macro::check;
+    use cglue::trait_group::c_void;
+    pub type Ctx = CArc<c_void>;
+    #[repr(C)]
+    struct Mirror { instance: *const c_void, clone_fn: Option<unsafe extern "C" fn(*const c_void) -> *const c_void>, drop_fn: Option<unsafe extern "C" fn(*const c_void)> }
+    static F_COUNT: AtomicI64 = AtomicI64::new(0);
+    static F_ON: AtomicI64 = AtomicI64::new(0);
+    static F_BAD: AtomicI64 = AtomicI64::new(0);
+    static RECORD: u64 = 0x5eed;
+    unsafe extern "C" fn f_clone(p: *const c_void) -> *const c_void { if p != &RECORD as *const u64 as *const c_void { F_BAD.fetch_add(1, SeqCst); } F_COUNT.fetch_add(1, SeqCst); p }
+    unsafe extern "C" fn f_drop(p: *const c_void) { if p != &RECORD as *const u64 as *const c_void { F_BAD.fetch_add(1, SeqCst); } F_COUNT.fetch_sub(1, SeqCst); }
+    fn ctx_begin(_arc: &Arc<()>) { F_COUNT.store(1, SeqCst); F_ON.store(1, SeqCst); F_BAD.store(0, SeqCst); }
+    fn ctx_end() { F_ON.store(0, SeqCst); }
+    fn mk_ctx(_arc: &Arc<()>) -> Ctx {
+        assert_eq!(std::mem::size_of::<Mirror>(), std::mem::size_of::<Ctx>());
+        F_COUNT.fetch_add(1, SeqCst);
+        unsafe { std::mem::transmute::<Mirror, Ctx>(Mirror { instance: &RECORD as *const u64 as *const c_void, clone_fn: Some(f_clone), drop_fn: Some(f_drop) }) }
+    }
+    /// (a function entered with another instance pointer than the record's shows up as an impossible count)
+    fn cur_count() -> Option<i64> { if F_ON.load(SeqCst) == 1 { Some(F_COUNT.load(SeqCst) + 1000 * F_BAD.load(SeqCst)) } else { None } }
+    include!("life_body.rs");
+}
+
 pub fn run(params: &[i64], ops: &Rows, mon: &mut Mon) -> Rows {
-    if params.get(0).copied().unwrap_or(0) == 1 { zst_ctx::run(params, ops, mon) } else { arc_ctx::run(params, ops, mon) }
+    match params.get(0).copied().unwrap_or(0) { 1 => zst_ctx::run(params, ops, mon), 2 => arc64_ctx::run(params, ops, mon), 3 => foreign_ctx::run(params, ops, mon), _ => arc_ctx::run(params, ops, mon) }
 }
